@@ -96,7 +96,11 @@ func solverCfgs(timeoutMs int, strs bool) []SolverCfg {
 }
 
 func runSolver(cfg SolverCfg, file string, wall time.Duration) (string, time.Duration) {
-	ctx, cancel := context.WithTimeout(context.Background(), wall)
+	return runSolverCtx(context.Background(), cfg, file, wall)
+}
+
+func runSolverCtx(parent context.Context, cfg SolverCfg, file string, wall time.Duration) (string, time.Duration) {
+	ctx, cancel := context.WithTimeout(parent, wall)
 	defer cancel()
 	t0 := time.Now()
 	args := append(append([]string{}, cfg.Cmd[1:]...), file)
@@ -182,23 +186,37 @@ func discharge(e *enc, dir string, idx int, timeoutMs int, obls []*Obl) {
 	for k, o := range retry {
 		single := filepath.Join(dir, fmt.Sprintf("f%04d_o%d.smt2", idx, k))
 		os.WriteFile(single, []byte(e.singleQuery(o, false)), 0644)
+		type ans struct {
+			r, raw, name string
+			ms         int64
+		}
+		ch := make(chan ans, len(cfgs))
+		ctx, cancel := context.WithCancel(context.Background())
 		for _, cfg := range cfgs {
-			out, dur := runSolver(cfg, single, time.Duration(timeoutMs+3000)*time.Millisecond)
-			r, errs := parseResults(out, 1)
-			if len(errs) > 0 && r[0] == "error" {
-				if o.Raw == "" {
-					o.Raw = cfg.Name + ": " + errs[0]
+			go func(cfg SolverCfg) {
+				out, dur := runSolverCtx(ctx, cfg, single, time.Duration(timeoutMs+3000)*time.Millisecond)
+				r, errs := parseResults(out, 1)
+				raw := ""
+				if len(errs) > 0 && r[0] == "error" {
+					raw = cfg.Name + ": " + errs[0]
 				}
-				continue
-			}
-			if r[0] == "unsat" || r[0] == "sat" {
-				o.Result, o.Solver, o.Ms = r[0], cfg.Name, dur.Milliseconds()
+				ch <- ans{r[0], raw, cfg.Name, dur.Milliseconds()}
+			}(cfg)
+		}
+		for range cfgs {
+			a := <-ch
+			if a.r == "unsat" || a.r == "sat" {
+				o.Result, o.Solver, o.Ms = a.r, a.name, a.ms
 				break
 			}
-			if o.Result == "error" {
-				o.Result, o.Solver, o.Ms = r[0], cfg.Name, dur.Milliseconds()
+			if a.raw != "" && o.Raw == "" {
+				o.Raw = a.raw
+			}
+			if o.Result == "error" && a.r != "error" {
+				o.Result, o.Solver, o.Ms = a.r, a.name, a.ms
 			}
 		}
+		cancel()
 		if !keepSMT {
 			os.Remove(single)
 		}
